@@ -329,14 +329,19 @@ def gen(ctx):
             cases.append(('gnu', common + [queries, _gnu_params(rng, names)]))
     # ---- (h) long names (65..700 bytes) thousands of bytes from their entries: on real file objects they straddle the
     #      reader's buffer boundaries (every 8192 bytes from the last refill; every 16 bytes on file_small)
-    for _ in range(14 * T):
+    for j in range(30 * T):
         n = rng.randint(5, 22)
         common, names, queries = _scenario(rng, n, long_names=True)
         common[4] = 3
-        cases.append(('symtab', common + [queries, 0, [rng.getrandbits(32) for _ in range(n)], 0,
-                                          [[rng.randrange(65536), rng.randrange(65536)] for _ in range(n)]]))
-        cases.append(('sysv', common + [queries, [rng.randint(1, n), rng.randrange(2)]]))
-        cases.append(('gnu', common + [queries, _gnu_params(rng, names)]))
+        if j % 3 == 0:
+            cases.append(('symtab', common + [queries, 0, [rng.getrandbits(32) for _ in range(n)], 0,
+                                              [[rng.randrange(65536), rng.randrange(65536)] for _ in range(n)]]))
+        elif j % 3 == 1:
+            cases.append(('sysv', common + [queries, [rng.randint(1, n), rng.randrange(2)]]))
+        else:
+            gp = _gnu_params(rng, names)
+            gp[5] = rng.choice([0, 0, 1])
+            cases.append(('gnu', common + [queries, gp]))
     # ---- (f) histories on ONE SymbolTableSection object (its _symbol_name_map is state)
     for _ in range(140 * T):
         n = rng.choice([1, 2, 3, 4, 5, 6, 8, 10, 12, rng.randint(0, 12), rng.randint(13, 60)])
@@ -485,7 +490,7 @@ def _stream_kind(seed, strmode=0):
     from tools.lib import streams
     r = random.Random('kind-%d' % seed)
     if strmode == 3:                 # far-apart long names: real buffered readers
-        return r.choice(['file', 'file', 'file_warm', 'file_end', 'gzip', 'file_small', 'mmap'])
+        return r.choice(['file', 'file', 'file_warm', 'file_end', 'file', 'gzip'])
     return streams.draw_kind(r, 0.5)
 
 
@@ -500,7 +505,11 @@ def _build_strtab(names, mode, rng):
     from their entries and from each other and straddle the read-buffer boundaries of real file objects"""
     tab = bytearray(b'\0')
     if mode == 3:
-        tab += _garbage(rng, rng.randint(0, 9000)) + b'\0'
+        # the names then lie around one read-buffer length behind their entries (open() takes the file system's
+        # st_blksize, commonly 4096, else io.DEFAULT_BUFFER_SIZE = 8192)
+        total = sum(len(nm) + 1 for nm in names)
+        buf = rng.choice([4096, 4096, io.DEFAULT_BUFFER_SIZE])
+        tab += _garbage(rng, rng.randint(max(0, buf - total - 600), buf)) + b'\0'
     offs = []
     seen = {}
     for nm in names:
@@ -612,6 +621,25 @@ def _call(f):
 
 def _ok(v):
     return ['ok', v]
+
+
+class _Failed:
+    """stands for a section object whose construction raised: every use of it raises that exception again, so the
+    failure shows up as the observed result of each call instead of stopping the harness"""
+    def __init__(self, e):
+        self._e = e
+
+    def __getattr__(self, name):
+        def f(*a, **k):
+            raise self._e
+        return f
+
+
+def _section(elf, i):
+    try:
+        return elf.get_section(i)
+    except Exception as e:   # noqa
+        return _Failed(e)
 
 
 def _lookup_obs(res, hashed_views):
@@ -770,17 +798,19 @@ def _eval_table(ctx, kind, a, ENUMS):
         secs.append(dict(name='.gnu.hash', type=SHT['GNU_HASH'], data=hb, link=2, entsize=0))
         if want_last:
             last = len(secs) - 1
+    if strmode == 3 and last is None and rng.random() < 0.75:
+        last = 0                                   # string table behind everything else
     img, offs_sec = _assemble(le, is64, machine, secs, rng, last=last, tight=n > 200)
     cfg = [le, is64, [offs_sec[1], len(symbytes), entsize], offs_sec[0]]
     elf = ELFFile(_open_stream(ctx, img, _stream_kind(fill_seed, strmode)))
-    symsec = elf.get_section(2)
+    symsec = _section(elf, 2)
     qstr = [q.decode('utf-8', errors='replace') for q in queries]
     ctx.bump('kind', kind)
     ctx.bump('nsyms', n if n <= 3 else ('4-12' if n <= 12 else ('13-200' if n <= 200 else '201-2000')))
     ctx.bump('class_order', ('64' if is64 else '32') + ('le' if le else 'be'))
     nontrivial = n >= 2
     if kind == 'symtab':
-        xsec = elf.get_section(3)
+        xsec = _section(elf, 3)
         m_num, m_iter, m_by, m_x = drv.batch([['m_num', cfg], ['m_iter', img, cfg], ['m_by_name', img, cfg, queries],
                                              ['m_shndx', img, le, [offs_sec[2], len(xb), 4 + xextra], list(range(n))]])
         impl = [_call(symsec.num_symbols),
@@ -792,7 +822,7 @@ def _eval_table(ctx, kind, a, ENUMS):
         model = [m_num, m_iter, m_by, m_x]
         parts = ['symtab-num-symbols', 'symtab-enumeration', 'symtab-by-name', 'symtab-shndx']
         if has_info:
-            isec = elf.get_section(4)
+            isec = _section(elf, 4)
             m_i = drv.one(['m_syminfo', img, cfg, [offs_sec[3], len(ib), 4 + iextra]])
             impl.append([_call(isec.num_symbols),
                          _call(lambda: _ok([[s.name.encode('utf-8'),
@@ -811,7 +841,7 @@ def _eval_table(ctx, kind, a, ENUMS):
         ctx.record(kind, a, impl=impl, spec=spec, model=model, in_domain=in_dom, nontrivial=nontrivial, key=key)
         return
     # ---- hash sections
-    hsec = elf.get_section(3)
+    hsec = _section(elf, 3)
     lo = 1 if kind == 'sysv' else so
     present = drv.one(['spec_present', strtab, rows, lo, queries])
     hashed_views = views[lo:]
@@ -957,7 +987,7 @@ def _eval_file(ctx, kind, a, ENUMS):
     skind = a[2].decode() if len(a) > 2 else 'bytesio'
     ctx.bump('elf_file_stream', fname + ' ' + skind)
     elf = ELFFile(_open_stream(ctx, img, skind))
-    symsec = elf.get_section(dynsym['index'])
+    symsec = _section(elf, dynsym['index'])
     qstr = [q.decode('utf-8') for q in queries]
     impl = [_call(lambda: _ok([_view(s, ENUMS) for s in symsec.iter_symbols()])),
             [_call(lambda: _ok((lambda r: 'none' if r is None else ['some', [_view(s, ENUMS) for s in r]])(
@@ -966,7 +996,7 @@ def _eval_file(ctx, kind, a, ENUMS):
     model = [m_iter, m_by]
     for sec, lo, m, pres in ((hsec, 1, m_s, ps), (gsec, so, m_g, pg)):
         hv = views[lo:]
-        obj = elf.get_section(sec['index'])
+        obj = _section(elf, sec['index'])
         lk = []
         for q in qstr:
             r = _call(lambda: obj.get_symbol(q))
@@ -1014,7 +1044,7 @@ def _eval_hist(ctx, kind, a, ENUMS):
     img, offs_sec = _assemble(le, is64, machine, secs, rng)
     cfg = [le, is64, [offs_sec[1], len(symbytes), entsize], offs_sec[0]]
     model = drv.one(['m_hist', img, cfg, calls])
-    symsec = ELFFile(_open_stream(ctx, img, _stream_kind(fill_seed, strmode))).get_section(2)
+    symsec = _section(ELFFile(_open_stream(ctx, img, _stream_kind(fill_seed, strmode))), 2)
     impl = []
     stops = []
     for o in ops:
@@ -1127,7 +1157,7 @@ def _eval_filehist(ctx, kind, a, ENUMS):
     cfg = [le, is64, [so_[1], len(symbytes), entsize], so_[0]]
     skind = _stream_kind(fill_seed, strmode)
     elf = ELFFile(_open_stream(ctx, img, skind))
-    symsec, xsec, isec, hsec, gsec = (elf.get_section(i) for i in (2, 3, 4, 5, 6))
+    symsec, xsec, isec, hsec, gsec = (_section(elf, i) for i in (2, 3, 4, 5, 6))
     gens, igens, ipos = {}, {}, {}
     impl, spec, tags, cursors = [], [], [], []
     hqi = 0
@@ -1162,9 +1192,9 @@ def _eval_filehist(ctx, kind, a, ENUMS):
                     return _ok(got_)
                 got = _call(run_iter)
             else:
-                if o[1] not in gens:
-                    gens[o[1]] = symsec.iter_symbols()
                 def step():
+                    if o[1] not in gens:
+                        gens[o[1]] = symsec.iter_symbols()
                     try:
                         return _ok(_view(next(gens[o[1]]), ENUMS))
                     except StopIteration:
@@ -1172,10 +1202,11 @@ def _eval_filehist(ctx, kind, a, ENUMS):
                 got = _call(step)
             impl.append(got); spec.append(want); tags.append(t)
         elif t == 'inext':
-            if o[1] not in igens:
-                igens[o[1]] = isec.iter_symbols()
+            if o[1] not in ipos:
                 ipos[o[1]] = 0
             def istep():
+                if o[1] not in igens:
+                    igens[o[1]] = isec.iter_symbols()
                 try:
                     s_ = next(igens[o[1]])
                     return _ok([s_.name.encode('utf-8'), [_num(s_.entry['si_boundto'], ENUMS['boundto']), s_.entry['si_flags']]])
